@@ -2,6 +2,7 @@
 R-ICC-REJECT — the consistency checks of the ICC stream decoder exist as compare -> error checks."""
 from .. import validation
 from ..engine import Ctx
+from ..facts import callee
 
 READ = "jxl_color::icc::decode::read_icc"
 DEC = "jxl_color::icc::decode::decode_icc"
@@ -349,6 +350,107 @@ def rule_predshift(ctx):
             ctx.ok(rid, "shift-from-width", "amount = %s" % txt[:120], nontrivial=True, fn=f)
 
 
+def rule_headerpred(ctx):
+    """the ICC header predictor, evaluated from MIR for every header position, equals the format's predictor"""
+    from .. import absint
+    rid = "R-ICC-HEADERPRED"
+    ctx.rule(rid, "the first 128 bytes of an embedded profile are coded as residuals of a fixed prediction (ISO/IEC 18181-1 ICC header "
+                  "prediction: output size in bytes 0..3, 4 at 8, `mntrRGB XYZ ` at 12..23, `acsp` at 36..39, the platform signature "
+                  "completed from its first one or two bytes (A->APPL, M->MSFT, SG->SGI_, SU->SUNW), 246 214 . 1 at 70..73, 211 45 at "
+                  "78..79, bytes 80..83 = bytes 4..7, everything else 0).  jxl_color::icc::decode::predict_header is evaluated from "
+                  "MIR (nothing is run; the evaluator interprets integer comparisons, constant byte strings, to_be_bytes and slice "
+                  "indexing) for every position 0..127 under ten residual vectors that exercise each platform rule and its negation, and "
+                  "two output sizes, and compared with the reference predictor applied to the bytes decoded so far")
+    col = ctx.prog.crate("jxl_color")
+    f = col.fn("jxl_color::icc::decode::predict_header")
+    if f is None:
+        ctx.anchor_missing(rid, "jxl_color::icc::decode::predict_header")
+        return
+    ctx.seen(f)
+    if f.argc != 3 or not (f.local_ty(1) == "usize" and f.local_ty(2) == "u32" and "[u8]" in f.local_ty(3)):
+        ctx.anchor_missing(rid, "predict_header(idx: usize, output_size: u32, header: &[u8])")
+        return
+    # the caller hands the residual slice itself as `header` and adds the prediction to the residual at the same position
+    dec = col.fn("jxl_color::icc::decode::decode_icc")
+    sites = [t for b, t in dec.calls() if callee(t) and callee(t)["fn"].endswith("predict_header")] if dec else []
+    if len(sites) != 1:
+        ctx.anchor_missing(rid, "the single call of predict_header in decode_icc (found %d)" % len(sites))
+        return
+    ctx.seen(dec)
+
+    INIT = [0] * 128
+    INIT[8] = 4
+    for i, ch in enumerate(b"mntrRGB XYZ "):
+        INIT[12 + i] = ch
+    for i, ch in enumerate(b"acsp"):
+        INIT[36 + i] = ch
+    INIT[70], INIT[71], INIT[73], INIT[78], INIT[79] = 246, 214, 1, 211, 45
+
+    def reference(osize, resid):
+        """decoded header and the per-position predictions, by the format's rule (prediction from the bytes decoded so far)"""
+        pred = list(INIT)
+        pred[0:4] = [(osize >> 24) & 255, (osize >> 16) & 255, (osize >> 8) & 255, osize & 255]
+        out, used = [], []
+        for pos in range(len(resid)):
+            if pos == 8:
+                pred[80:84] = out[4:8]
+            if pos == 41:
+                if out[40] == ord("A"):
+                    pred[41:44] = list(b"PPL")
+                if out[40] == ord("M"):
+                    pred[41:44] = list(b"SFT")
+            if pos == 42:
+                if out[40] == ord("S") and out[41] == ord("G"):
+                    pred[42:44] = list(b"I ")
+                if out[40] == ord("S") and out[41] == ord("U"):
+                    pred[42:44] = list(b"NW")
+            used.append(pred[pos])
+            out.append((pred[pos] + resid[pos]) & 255)
+        return out, used
+
+    def vec(b40, b41, seed, n=128):
+        v = [((i * 37 + seed * 11) ^ (i >> 2)) & 255 for i in range(n)]
+        if n > 40:
+            v[40] = b40
+        if n > 41:
+            v[41] = b41
+        return v
+
+    vectors = [vec(ord("A"), 0, 1), vec(ord("M"), 0, 2), vec(ord("S"), ord("G"), 3), vec(ord("S"), ord("U"), 4), vec(ord("S"), ord("x"), 5),
+               vec(ord("S"), 0, 6), vec(ord("Q"), ord("G"), 7), vec(0, 0, 8), vec(ord("A"), ord("P"), 9, n=44), vec(ord("S"), ord("G"), 10, n=42)]
+    rows, bad, undec = 0, [], None
+    for osize in (0x01020304, 131):
+        for vi, resid in enumerate(vectors):
+            _out, used = reference(osize, resid)
+            for idx in range(len(resid)):
+                ev = absint.Evaluator(ctx.prog, ext=lambda path, r=resid: tuple(r) if path == ("header",) else absint.UNKNOWN)
+                try:
+                    got = ev.call_fn(f, [idx, osize, absint.Ref(("ext", "header"))])
+                except absint.Unsupported as e:
+                    undec = "position %d: %s" % (idx, e)
+                    break
+                rows += 1
+                if got != used[idx]:
+                    bad.append((idx, vi, resid[40], resid[41], got, used[idx]))
+            if undec:
+                break
+        if undec:
+            break
+    ctx.count(rid + ".rows", rows)
+    if undec:
+        ctx.bad(rid, "predict_header|not-evaluable", "predict_header is no longer a function the evaluator can decide (%s); the header prediction "
+                "table cannot be compared with the format" % undec, fn=f)
+        return
+    ctx.floor(rid + ".rows", 2 * (8 * 128 + 44 + 42))
+    if not bad:
+        ctx.ok(rid, "predict_header|table", "%d evaluations: every position's prediction equals the format's, for each platform rule and its negation" % rows,
+               nontrivial=True, fn=f)
+    else:
+        idx, vi, b40, b41, got, want = bad[0]
+        ctx.bad(rid, "predict_header|table", "position %d with header bytes 40, 41 = %d, %d: predicts %d, the format says %d (%d of %d evaluations differ): "
+                "the byte of every profile of that kind is decoded wrongly" % (idx, b40, b41, got, want, len(bad), rows), fn=f)
+
+
 def main(pid, tier, repo=None):
     ctx = Ctx(pid, tier, configs=("workspace",), repo=repo)
     rid = "R-ICC-REJECT"
@@ -382,6 +484,7 @@ def main(pid, tier, repo=None):
     specconst.run(ctx, pid)
     rule_tagsize(ctx)
     rule_predshift(ctx)
+    rule_headerpred(ctx)
     # no unwrap/expect/index panic on the error path: decode_icc returns Result and converts slice errors
     ctx.not_decided("byte equality of the decoded profile with the embedded one for every encoding (value-level round trip); the predictor "
                     "arithmetic and the shuffle permutations")
